@@ -61,9 +61,9 @@ PROPS["C01"] = {
              "outside,...} excluding dst, before vs after Unpack, whatever Unpack returns. Sequence sub-check: 2-3 such archives unpacked one after "
              "the other into the same destination path (optionally emptied in between), later archives re-typing names of earlier ones "
              "(a directory becomes a link leaving dst by way of another link or through the allow-list, dangling links that a later "
-             "archive completes), same snapshot oracle after every call; destination spellings include a destination that is itself a symlink. Non-trivial = some entry name or link target "
+             "archive completes), same snapshot oracle after every call; destination spellings include a destination that is itself a symlink and relative ones ('.', './', 'dst', '../dst' with the matching working directory); sequences may use one Packer for every call and switch to a second destination, for which the first one counts as outside. Non-trivial = some entry name or link target "
              "leaves dst lexically, an entry sits at or below an earlier link's name, or the stream is faulted; distinct by case hash."),
-    "assumptions": ["dst exists and contains no symlinks placed by the caller", "atime is ignored (the snapshot walk itself changes it)"],
+    "assumptions": ["dst exists and contains no symlinks placed by the caller (links left by earlier Unpack calls of a sequence are in scope)", "atime is ignored (the snapshot walk itself changes it)"],
     "quick": [rapid("rapid", "^TestPropContainment$", 2500, shards=4), rapid("sequence", "^TestPropSequence$", 600, shards=2)],
     "thorough": [rapid("rapid", "^TestPropContainment$", 30000, shards=14), rapid("sequence", "^TestPropSequence$", 8000, shards=4), fuzz("FuzzUnpackContainment", "120s")],
 }
@@ -98,7 +98,7 @@ PROPS["C02"] = {
              "non-ASCII, 120-255 byte components; mtimes with .0/.4/.5/.6/.999999999 fractions, pre-1970 and post-2038) x {deref} x {ignore} "
              "- oracle: Unpack(Pack(tree)) into an empty directory has the same relative paths, types, contents, Perm bits, link targets and "
              "(files, dirs) mtime == source mtime rounded to the second; omissions = special files and what the reference ignore matcher "
-             "excludes. Root pass and a pass as uid 65534. Non-trivial = tree has an empty dir, link, special file, long/non-ASCII name, mode "
+             "excludes. Root pass, a pass as uid 65534 and a pass under umask 077; the destination is also named below a symlinked parent or is itself a symlink, the source below a symlinked parent; names include line breaks and backslashes, mtimes the first second of the epoch. Non-trivial = tree has an empty dir, link, special file, long/non-ASCII name, mode "
              "other than 0644/0755 or fractional mtime; distinct by case hash."),
     "assumptions": ["the root directory's own mode/time is not archived", "link mtimes are exempt (property text)", "with ignore on, directories the reference excludes are compared leniently (C03 judges them)"],
     "quick": [rapid("root", "^TestPropRoundTrip$", 1500, shards=3), rapid("unpriv", "^TestPropRoundTrip$", 1200, shards=1, uid=65534),
@@ -178,7 +178,7 @@ PROPS["C05"] = {
              "content with deref off; OUT: content only at or below an out-of-tree link with deref on; an out-of-tree, non-allow-listed, "
              "visited link makes Pack fail when deref is off and is never stored as a link; entry names are clean relative paths; relative "
              "link entries stay inside the archive root at their own position; an illegal-slug error only when some link leaves the tree; "
-             "Unpack accepts the slug when all links are relative. Non-trivial = tree has an out-of-tree, sibling-prefix, chained, directory "
+             "Unpack accepts the slug when all links are relative - also into a destination below a symlinked parent; a dereferenced link's entries equal what the operating system reaches through it (content, mode; for directories: every entry exists there); links are classified by their textual AND their physical target (a link that reads as in-tree and leaves it by way of an in-tree link to '.' is out-of-tree); the source is sometimes named through a relative root link from a directory holding a decoy. Deeplink sub-check: source named through a symlinked directory whose target lies deeper than its name, link climbing past it. Non-trivial = tree has an out-of-tree, sibling-prefix, chained, directory "
              "or root-re-entering link; distinct by case hash."),
     "assumptions": ["absolute in-tree links stored with their absolute target are existing tested behaviour", "link cycles are C19's domain"],
     "quick": [rapid("leak", "^TestPropLeak$", 1800, shards=4), rapid("deeplink", "^TestPropDeepLink$", 100, shards=1)],
